@@ -62,6 +62,11 @@ CHECKS = {
    "Fault positions are enumerated exhaustively per workload; the workloads and the goroutine schedules (sink delays, rd) are sampled. Faults are honest errors, not silent short writes.",
    "fault injection through harness-owned io.Writer/io.ReadSeeker shims, exhaustive over call indices of rapid-generated workloads; oracle = return/leak watchdog + reference data",
    "DESIGN.md 3/C09"),
+ "C05": ("exploration",
+   "Generated-input search: API-built headers and records covering every field class (names 1..254, any reference/mate, position edges, 0..65535 CIGAR ops of all types, odd/even/zero sequences sized around the 4 KiB reader buffer and above a BGZF block, qualities absent/present, every aux type and B sub-type incl. empty) are written with bam.Writer and (1) the bytes under the BGZF layer are compared with an independent SAM 4.2 encoder (bin masked), (2) read back at rd 1..4 and compared field by field after all records were read (reference identity in the reader's header), then io.EOF, (3) re-read with Omit(AuxTags) and Omit(AllVariableLengthData).",
+   "Trusted: the harness' BAM encoder. Aux type H is a recorded known finding (region excluded and counted, pinned replay reported).",
+   "property-based testing (rapid): round trip + differential against an independent specification encoder",
+   "DESIGN.md 3/C05"),
 }
 
 NOT_YET = {}
